@@ -19,7 +19,9 @@ PLAN = {
     "api": True,
     "mc": [("StoreMC_acct.cfg", False), ("StoreMC_exp_small.cfg", False), ("StoreMC_exp.cfg", True)],
     "sims": [("StoreSim_acct.cfg", 250, 2000, 61), ("StoreSim_delta.cfg", 1500, 8000, 46)],
-    "drivers": [("TestVerif_StoreFree", 6, 40, "store_free.ndjson", None), ("TestVerif_StoreStall", 10, 80, "store_stall.ndjson", None)],
+    "drivers": [("TestVerif_StoreFree", 6, 40, "store_free.ndjson", None), ("TestVerif_StoreStall", 10, 80, "store_stall.ndjson", None),
+                # loading Gets (insert event built after the loader's critical section) racing updates of the same key
+                ("TestVerif_StoreLoad", 6, 60, "store_load.ndjson", None)],
     "assumptions": [
         "in-flight clause: on every insertion the observer counts the resident entries whose NEW event has not been applied and compares with queue capacity + batch size + client processes + 1; the stall driver holds the policy lock while 2-4 writers insert 60 new keys into a cache with queue 2-8 and batch 1-4",
         "exhaustive only for the small constants of spec/StoreMC_acct.cfg and StoreMC_exp*.cfg; victim choice and wheel visits are nondeterministic in Store.tla (over-approximation of W-TinyLFU and of the timer wheel)",
